@@ -2,7 +2,7 @@
    list-model operation: the heap model refines the simple list model ([spec_step]). *)
 From Coq Require Import List Arith Bool QArith Lia.
 Import ListNotations.
-From PD Require Import Model.Heap Proofs.Heap Proofs.HeapWf Proofs.HeapSep Proofs.HeapNI.
+From PD Require Import Model.Heap Proofs.Heap Proofs.HeapWf Proofs.HeapSep Proofs.HeapTimes Proofs.HeapNI.
 Local Open Scope nat_scope.
 
 (* ------------------------------------------------------------------------------------ *)
@@ -87,21 +87,48 @@ Proof. apply vals_abs, vals_of_alloc_new. Qed.
 Lemma abs_vals_alloc_new1 h v : abs_vals (alloc h [v]) (new_locs h 1) = [v].
 Proof. apply (abs_vals_alloc_new h [v]). Qed.
 
-Lemma map_upd {A B} (f : A -> B) l c x : map f (upd l c x) = upd (map f l) c (f x).
-Proof. revert c; induction l as [|a l IH]; intros [|c]; simpl; auto. f_equal; auto. Qed.
-
 Lemma map_ext_Forall {A B} (f g : A -> B) (P : A -> Prop) l :
   Forall P l -> (forall a, P a -> f a = g a) -> map f l = map g l.
 Proof. intros H Hfg. apply map_ext_in. intros a Ha. rewrite Forall_forall in H. auto. Qed.
 
+Definition spec_eq_intro a b c d e f a' b' c' d' e' f' :
+  a = a' -> b = b' -> c = c' -> d = d' -> e = e' -> f = f' -> mkS a b c d e f = mkS a' b' c' d' e' f'.
+Proof. intros; subst; reflexivity. Qed.
+
+(* abs only depends on the tables, on the values of the objects in range and on the content of the
+   times lists in range *)
+Lemma abs_ext h h' :
+  wf h -> hnd h' = hnd h -> ems h' = ems h -> tcs h' = tcs h -> trs h' = trs h -> tls h' = tls h ->
+  tvars h' = tvars h ->
+  (forall l, l < length (objs h) -> val_of h' l = val_of h l) ->
+  (forall tl, tl < length (tlists h) -> tl_get h' tl = tl_get h tl) ->
+  abs h' = abs h.
+Proof.
+  intros W E1 E2 E3 E4 E5 E6 V T. unfold abs. rewrite E1, E2, E3, E4, E5, E6.
+  assert (AV : forall ls, locs_ok h ls -> abs_vals h' ls = abs_vals h ls).
+  { intros ls H. apply abs_vals_ext. intros l Hl. apply V. unfold locs_ok in H. rewrite Forall_forall in H. auto. }
+  apply spec_eq_intro; auto.
+  - apply AV. apply (wf_hnd _ W).
+  - eapply map_ext_Forall; [apply (wf_ems _ W)|]. intros e He. simpl in He. f_equal. apply AV; auto.
+  - eapply map_ext_Forall; [apply (wf_tc_tl _ W)|]. intros t Ht. simpl in Ht. f_equal. unfold tc_times. auto.
+  - eapply map_ext_Forall with (P := fun k => locs_ok h (tr_drops k) /\ tr_tl k < length (tlists h)).
+    + apply Forall_forall. intros k Hk. split.
+      * pose proof (wf_trs _ W) as X. rewrite Forall_forall in X. auto.
+      * pose proof (wf_tr_tl _ W) as X. rewrite Forall_forall in X. auto.
+    + intros k [H1 H2]. f_equal; [unfold tr_times; auto|apply AV; auto].
+  - eapply map_ext_Forall; [apply (wf_tvars _ W)|]. intros tl Htl. simpl in Htl. auto.
+Qed.
+
 Lemma abs_alloc h vs : wf h -> abs (alloc h vs) = abs h.
 Proof.
-  intros W. unfold abs. hs. f_equal.
-  - apply abs_vals_alloc_old; auto. apply (wf_hnd _ W).
-  - eapply map_ext_Forall; [apply (wf_ems _ W)|]. intros e He. simpl in He.
-    f_equal. apply abs_vals_alloc_old; auto.
-  - eapply map_ext_Forall; [apply (wf_trs _ W)|]. intros e He. simpl in He.
-    f_equal. apply abs_vals_alloc_old; auto.
+  intros W. apply abs_ext; auto.
+  - intros l Hl. apply val_of_alloc_old; auto.
+Qed.
+
+Lemma abs_alloc_tl h ts : wf h -> abs (alloc_tl h ts) = abs h.
+Proof.
+  intros W. apply abs_ext; auto.
+  intros tl Htl. apply (tl_get_alloc_old h (alloc_tl h ts) ts); auto.
 Qed.
 
 (* abs of the table-level setters (values are looked up in objs/store only) *)
@@ -111,17 +138,19 @@ Lemma abs_set_em h c e : abs (set_em h c e) = sp_ems (abs h) (upd (s_ems (abs h)
 Proof. unfold abs, sp_ems. hs. simpl. rewrite map_upd. reflexivity. Qed.
 Lemma abs_push_em h e : abs (push_em h e) = sp_ems (abs h) (s_ems (abs h) ++ [(e_dtype e, abs_vals h (e_mem e))]).
 Proof. unfold abs, sp_ems. hs. simpl. rewrite map_app. reflexivity. Qed.
-Lemma abs_set_tc h t x : abs (set_tc h t x) = sp_tcs (abs h) (upd (s_tcs (abs h)) t (tc_times x, tc_ems x)).
+Lemma abs_set_tc h t x : abs (set_tc h t x) = sp_tcs (abs h) (upd (s_tcs (abs h)) t (tc_times h x, tc_ems x)).
 Proof. unfold abs, sp_tcs. hs. simpl. rewrite map_upd. reflexivity. Qed.
-Lemma abs_push_tc h x : abs (push_tc h x) = sp_tcs (abs h) (s_tcs (abs h) ++ [(tc_times x, tc_ems x)]).
+Lemma abs_push_tc h x : abs (push_tc h x) = sp_tcs (abs h) (s_tcs (abs h) ++ [(tc_times h x, tc_ems x)]).
 Proof. unfold abs, sp_tcs. hs. simpl. rewrite map_app. reflexivity. Qed.
-Lemma abs_set_tr h k x : abs (set_tr h k x) = sp_trs (abs h) (upd (s_trs (abs h)) k (tr_times x, abs_vals h (tr_drops x))).
+Lemma abs_set_tr h k x : abs (set_tr h k x) = sp_trs (abs h) (upd (s_trs (abs h)) k (tr_times h x, abs_vals h (tr_drops x))).
 Proof. unfold abs, sp_trs. hs. simpl. rewrite map_upd. reflexivity. Qed.
-Lemma abs_push_tr h x : abs (push_tr h x) = sp_trs (abs h) (s_trs (abs h) ++ [(tr_times x, abs_vals h (tr_drops x))]).
+Lemma abs_push_tr h x : abs (push_tr h x) = sp_trs (abs h) (s_trs (abs h) ++ [(tr_times h x, abs_vals h (tr_drops x))]).
 Proof. unfold abs, sp_trs. hs. simpl. rewrite map_app. reflexivity. Qed.
 Lemma abs_push_arr h r : abs (push_arr h r) = abs h.
 Proof. reflexivity. Qed.
 Lemma abs_with_tls h x : abs (with_tls h x) = sp_tls (abs h) x.
+Proof. reflexivity. Qed.
+Lemma abs_with_tvars h x : abs (with_tvars h x) = sp_tvars (abs h) (map (tl_get h) x).
 Proof. reflexivity. Qed.
 
 (* lookups in the abstract state *)
@@ -134,11 +163,11 @@ Lemma abs_ems_nth h c :
 Proof. simpl. rewrite nth_error_map. reflexivity. Qed.
 
 Lemma abs_tcs_nth h t :
-  nth_error (s_tcs (abs h)) t = option_map (fun x => (tc_times x, tc_ems x)) (nth_error (tcs h) t).
+  nth_error (s_tcs (abs h)) t = option_map (fun x => (tc_times h x, tc_ems x)) (nth_error (tcs h) t).
 Proof. simpl. rewrite nth_error_map. reflexivity. Qed.
 
 Lemma abs_trs_nth h k :
-  nth_error (s_trs (abs h)) k = option_map (fun x => (tr_times x, abs_vals h (tr_drops x))) (nth_error (trs h) k).
+  nth_error (s_trs (abs h)) k = option_map (fun x => (tr_times h x, abs_vals h (tr_drops x))) (nth_error (trs h) k).
 Proof. simpl. rewrite nth_error_map. reflexivity. Qed.
 
 Lemma mapM_hnd_abs h is ls : wf h -> mapM (nth_error (hnd h)) is = Some ls ->
@@ -186,14 +215,6 @@ Proof.
     + rewrite Hv. simpl. f_equal. apply IH; auto.
     + intros ->. apply Hnin. eapply nth_error_In; eauto.
 Qed.
-
-Definition spec_eq_intro a b c d e a' b' c' d' e' :
-  a = a' -> b = b' -> c = c' -> d = d' -> e = e' -> mkS a b c d e = mkS a' b' c' d' e'.
-Proof. intros; subst; reflexivity. Qed.
-
-(* ------------------------------------------------------------------------------------ *)
-(* per-operation refinement lemmas                                                       *)
-(* ------------------------------------------------------------------------------------ *)
 
 Opaque abs.
 
@@ -499,15 +520,22 @@ Qed.
 
 Definition absE (h : heap) (e : emul) := (e_dtype e, abs_vals h (e_mem e)).
 
-Lemma s_ems_abs h : s_ems (abs h) = map (absE h) (ems h).
+Lemma s_hnd_abs h : s_hnd (abs h) = abs_vals h (hnd h).
 Proof. Transparent abs. reflexivity. Qed.
-Lemma s_tcs_abs h : s_tcs (abs h) = map (fun t => (tc_times t, tc_ems t)) (tcs h).
+Lemma s_ems_abs h : s_ems (abs h) = map (absE h) (ems h).
 Proof. reflexivity. Qed.
-Lemma s_trs_abs h : s_trs (abs h) = map (fun k => (tr_times k, abs_vals h (tr_drops k))) (trs h).
+Lemma s_tcs_abs h : s_tcs (abs h) = map (fun t => (tc_times h t, tc_ems t)) (tcs h).
+Proof. reflexivity. Qed.
+Lemma s_trs_abs h : s_trs (abs h) = map (fun k => (tr_times h k, abs_vals h (tr_drops k))) (trs h).
 Proof. reflexivity. Qed.
 Lemma s_tls_abs h : s_tls (abs h) = tls h.
 Proof. reflexivity. Qed.
+Lemma s_tvars_abs h : s_tvars (abs h) = map (tl_get h) (tvars h).
+Proof. reflexivity. Qed.
 Opaque abs.
+
+Lemma abs_tvars_nth h j : nth_error (s_tvars (abs h)) j = option_map (tl_get h) (nth_error (tvars h) j).
+Proof. rewrite s_tvars_abs, nth_error_map. reflexivity. Qed.
 
 Lemma abs_vals_new_em_old h vs ls : wf h -> locs_ok h ls -> abs_vals (new_em_vals h vs) ls = abs_vals h ls.
 Proof.
@@ -527,32 +555,90 @@ Proof.
     { eapply Forall_impl; [|exact Hes]. intros a Ha.
       eapply Forall_lt_mono with (f := fun x => x); [|exact Ha]. apply objs_new_em_vals. }
     rewrite (IH _ (wf_new_em_vals h _ W) Hes' E).
-    rewrite abs_new_em_vals by auto. unfold sp_new_em, sp_ems. cbn [s_ems s_hnd s_tcs s_trs s_tls].
+    rewrite abs_new_em_vals by auto. unfold sp_new_em, sp_ems. cbn [s_ems s_hnd s_tcs s_trs s_tls s_tvars].
     rewrite <- app_assoc. simpl. f_equal. f_equal. f_equal. f_equal.
     apply map_ext_Forall with (P := fun e0 => locs_ok h (e_mem e0)); auto.
     intros a Ha. unfold absE. f_equal. apply abs_vals_new_em_old; auto.
+Qed.
+
+Lemma tc_times_in h h' tl ems0 : tl_get h' tl = tl_get h tl -> tc_times h' (mkTC tl ems0) = tl_get h tl.
+Proof. intros E. unfold tc_times. exact E. Qed.
+
+Lemma refine_build_tc h es ts :
+  wf h -> Forall (fun e => locs_ok h (e_mem e)) es ->
+  sp_build_tc (abs h) (map (absE h) es) ts = (abs (fst (build_tc h es ts)), snd (build_tc h es ts)).
+Proof.
+  intros W H. unfold sp_build_tc, build_tc.
+  destruct (copy_ems_total h es W H) as [h1 H1]. rewrite H1. rewrite !map_length.
+  destruct (Nat.eqb (length ts) (length es)); simpl; auto.
+  destruct (wf_copy_ems h es h1 W H H1) as [W1 _].
+  destruct (copy_ems_tables h es h1 H1) as (_ & _ & _ & _ & _ & T6 & _).
+  rewrite abs_push_tc, abs_alloc_tl by auto. unfold tc_times. cbn [tc_tl tc_ems].
+  rewrite <- T6. rewrite (tl_get_alloc_new h1 (alloc_tl h1 ts) ts) by reflexivity.
+  rewrite (abs_copy_ems h es h1 W H H1). unfold new_cids. rewrite s_ems_abs, map_length. reflexivity.
+Qed.
+
+Lemma refine_build_tr h vs ts :
+  wf h -> sp_build_tr (abs h) vs ts = (abs (fst (build_tr h vs ts)), snd (build_tr h vs ts)).
+Proof.
+  intros W. unfold sp_build_tr, build_tr. destruct (same_dims vs); simpl; auto.
+  destruct (Nat.eqb (length ts) (length vs)); simpl; auto.
+  rewrite abs_push_tr. unfold tr_times. cbn [tr_tl tr_drops].
+  rewrite (abs_vals_tables (alloc h vs) (alloc_tl (alloc h vs) ts)) by reflexivity.
+  rewrite abs_alloc_tl, abs_alloc by (auto; apply wf_alloc; auto).
+  change (length (tlists h)) with (length (tlists (alloc h vs))).
+  rewrite (tl_get_alloc_new (alloc h vs) (alloc_tl (alloc h vs) ts) ts) by reflexivity.
+  rewrite abs_vals_alloc_new. reflexivity.
+Qed.
+
+Lemma tc_times_ok h t tc : wf h -> nth_error (tcs h) t = Some tc -> times_of h (tc_tl tc) = Some (tc_times h tc).
+Proof.
+  intros W E. destruct (times_of_ok h (tc_tl tc) (wf_tc_tl_lt _ _ _ W E)) as [ts Hts].
+  unfold tc_times. rewrite (tl_get_some _ _ _ Hts). exact Hts.
+Qed.
+Lemma tr_times_ok h k tr : wf h -> nth_error (trs h) k = Some tr -> times_of h (tr_tl tr) = Some (tr_times h tr).
+Proof.
+  intros W E. destruct (times_of_ok h (tr_tl tr) (wf_tr_tl_lt _ _ _ W E)) as [ts Hts].
+  unfold tr_times. rewrite (tl_get_some _ _ _ Hts). exact Hts.
+Qed.
+Lemma tvar_times_ok h j tl : wf h -> nth_error (tvars h) j = Some tl -> times_of h tl = Some (tl_get h tl).
+Proof.
+  intros W E. destruct (times_of_ok h tl (wf_tvar_lt _ _ _ W E)) as [ts Hts].
+  rewrite (tl_get_some _ _ _ Hts). exact Hts.
 Qed.
 
 Lemma refine_tcnew h cs times : wf h -> refines h (OTcNew cs times).
 Proof.
   intros W. unfold refines. simpl. unfold exec_tcnew. rewrite s_ems_abs, mapM_nth_map.
   destruct (mapM (nth_error (ems h)) cs) as [es|] eqn:E; simpl; auto.
-  destruct (copy_ems_total h es W (wf_mapM_ems _ _ _ W E)) as [h1 H1]. rewrite H1.
-  rewrite !map_length.
-  match goal with |- context [if ?b then _ else _] => destruct b end; simpl; auto.
-  rewrite abs_push_tc. cbn [tc_times tc_ems].
-  rewrite (abs_copy_ems h es h1 W (wf_mapM_ems _ _ _ W E) H1).
-  unfold new_cids. rewrite s_ems_abs. reflexivity.
+  rewrite map_length. apply refine_build_tc; auto. eapply wf_mapM_ems; eauto.
 Qed.
 
-Lemma refine_tcappend h t c tm cp : wf h -> refines h (OTcAppend t c tm cp).
+Lemma refine_tccopy h t : wf h -> refines h (OTcCopy t).
 Proof.
-  intros W. unfold refines. simpl. unfold exec_tcappend. rewrite abs_tcs_nth, abs_ems_nth.
+  intros W. unfold refines. simpl. unfold exec_tccopy. rewrite abs_tcs_nth.
   destruct (nth_error (tcs h) t) as [tc|] eqn:Et; simpl; auto.
-  destruct (nth_error (ems h) c) as [e|] eqn:Ee; simpl; auto.
-  rewrite (abs_vals_vals h (e_mem e) W (wf_em _ _ _ W Ee)). simpl.
-  rewrite abs_set_tc. cbn [tc_times tc_ems]. rewrite abs_new_em_vals by auto.
-  rewrite s_ems_abs, map_length. reflexivity.
+  rewrite (tc_times_ok h t tc W Et). rewrite s_ems_abs, mapM_nth_map.
+  destruct (mapM (nth_error (ems h)) (tc_ems tc)) as [es|] eqn:E; simpl; auto.
+  apply refine_build_tc; auto. eapply wf_mapM_ems; eauto.
+Qed.
+
+Lemma refine_tcnewl h cs j : wf h -> refines h (OTcNewL cs j).
+Proof.
+  intros W. unfold refines. simpl. unfold exec_tcnewl. rewrite s_ems_abs, mapM_nth_map, abs_tvars_nth.
+  destruct (mapM (nth_error (ems h)) cs) as [es|] eqn:E; simpl; auto.
+  destruct (nth_error (tvars h) j) as [tl|] eqn:Ej; simpl; auto.
+  rewrite (tvar_times_ok h j tl W Ej).
+  apply refine_build_tc; auto. eapply wf_mapM_ems; eauto.
+Qed.
+
+Lemma refine_tcslice h t lo hi : wf h -> refines h (OTcSlice t lo hi).
+Proof.
+  intros W. unfold refines. simpl. unfold exec_tcslice. rewrite abs_tcs_nth.
+  destruct (nth_error (tcs h) t) as [tc|] eqn:Et; simpl; auto.
+  rewrite (tc_times_ok h t tc W Et). rewrite s_ems_abs, mapM_nth_map.
+  destruct (mapM (nth_error (ems h)) (slice lo hi (tc_ems tc))) as [es|] eqn:E; simpl; auto.
+  apply refine_build_tc; auto. eapply wf_mapM_ems; eauto.
 Qed.
 
 Lemma refine_tcappend_bad h t : refines h (OTcAppendBad t).
@@ -561,24 +647,108 @@ Proof.
   destruct (nth_error (tcs h) t); reflexivity.
 Qed.
 
-Lemma refine_tcslice h t lo hi : wf h -> refines h (OTcSlice t lo hi).
+Lemma upd_upd {A} (l : list A) n x y : upd (upd l n x) n y = upd l n y.
+Proof. revert n; induction l as [|a l IH]; intros [|n]; simpl; auto. f_equal; auto. Qed.
+
+(* a write to the times list of time course t *)
+Transparent abs.
+Lemma abs_set_tl_tc h t tc x :
+  wf h -> Aligned h -> nth_error (tcs h) t = Some tc ->
+  abs (set_tl h (tc_tl tc) x) = sp_tcs (abs h) (upd (s_tcs (abs h)) t (x, tc_ems tc)).
 Proof.
-  intros W. unfold refines. simpl. unfold exec_tcslice. rewrite abs_tcs_nth.
-  destruct (nth_error (tcs h) t) as [tc|] eqn:Et; simpl; auto.
-  rewrite s_ems_abs, mapM_nth_map.
-  destruct (mapM (nth_error (ems h)) (slice lo hi (tc_ems tc))) as [es|] eqn:E; simpl; auto.
-  destruct (copy_ems_total h es W (wf_mapM_ems _ _ _ W E)) as [h1 H1]. rewrite H1.
-  rewrite !map_length.
-  match goal with |- context [if ?b then _ else _] => destruct b end; simpl; auto.
-  rewrite abs_push_tc. cbn [tc_times tc_ems].
-  rewrite (abs_copy_ems h es h1 W (wf_mapM_ems _ _ _ W E) H1).
-  unfold new_cids. rewrite s_ems_abs. reflexivity.
+  intros W (S & _) Et. assert (Hlt : tc_tl tc < length (tlists h)) by (eapply wf_tc_tl_lt; eauto).
+  set (h' := set_tl h (tc_tl tc) x).
+  assert (E3 : tlists h' = upd (tlists h) (tc_tl tc) x) by reflexivity.
+  unfold abs, sp_tcs. apply spec_eq_intro; auto.
+  - cbn [s_tcs]. change (tcs h') with (tcs h).
+    rewrite (map_change_at (fun t0 => (tc_times h t0, tc_ems t0)) (fun t0 => (tc_times h' t0, tc_ems t0)) (tcs h) t tc Et).
+    + f_equal. f_equal. unfold tc_times. apply (tl_get_set_same h h' (tc_tl tc) x); auto.
+    + intros t' tc' Hne E'. f_equal. unfold tc_times. apply (tl_get_set_other h h' (tc_tl tc) x); auto.
+      eapply (tsep_tc_tc h t t'); eauto.
+  - cbn [s_trs]. change (trs h') with (trs h). apply map_ext_in. intros k Hk.
+    apply In_nth_error in Hk as [n Hn]. f_equal. unfold tr_times.
+    apply (tl_get_set_other h h' (tc_tl tc) x); auto. eapply tsep_tc_tr; eauto.
+  - cbn [s_tvars]. change (tvars h') with (tvars h). apply map_ext_in. intros tl Htl.
+    apply In_nth_error in Htl as [n Hn]. apply (tl_get_set_other h h' (tc_tl tc) x); auto.
+    intros ->. eapply tsep_tv_tc; eauto.
 Qed.
 
-Lemma refine_tcclear h t : refines h (OTcClear t).
+Lemma abs_set_tl_tr h k tr x :
+  wf h -> Aligned h -> nth_error (trs h) k = Some tr ->
+  abs (set_tl h (tr_tl tr) x) = sp_trs (abs h) (upd (s_trs (abs h)) k (x, abs_vals h (tr_drops tr))).
 Proof.
-  unfold refines. simpl. unfold exec_tcclear. rewrite abs_tcs_nth.
-  destruct (nth_error (tcs h) t); simpl; auto. rewrite abs_set_tc. reflexivity.
+  intros W (S & _) Et. assert (Hlt : tr_tl tr < length (tlists h)) by (eapply wf_tr_tl_lt; eauto).
+  set (h' := set_tl h (tr_tl tr) x).
+  assert (E3 : tlists h' = upd (tlists h) (tr_tl tr) x) by reflexivity.
+  unfold abs, sp_trs. apply spec_eq_intro; auto.
+  - cbn [s_tcs]. change (tcs h') with (tcs h). apply map_ext_in. intros tc Hc.
+    apply In_nth_error in Hc as [n Hn]. f_equal. unfold tc_times.
+    apply (tl_get_set_other h h' (tr_tl tr) x); auto. intros Heq. eapply (tsep_tc_tr h n k); eauto.
+  - cbn [s_trs]. change (trs h') with (trs h).
+    rewrite (map_change_at (fun k0 => (tr_times h k0, abs_vals h (tr_drops k0)))
+                           (fun k0 => (tr_times h' k0, abs_vals h' (tr_drops k0))) (trs h) k tr Et).
+    + f_equal. f_equal. unfold tr_times. apply (tl_get_set_same h h' (tr_tl tr) x); auto.
+    + intros k' tr' Hne E'. f_equal. unfold tr_times. apply (tl_get_set_other h h' (tr_tl tr) x); auto.
+      eapply (tsep_tr_tr h k k'); eauto.
+  - cbn [s_tvars]. change (tvars h') with (tvars h). apply map_ext_in. intros tl Htl.
+    apply In_nth_error in Htl as [n Hn]. apply (tl_get_set_other h h' (tr_tl tr) x); auto.
+    intros ->. eapply tsep_tv_tr; eauto.
+Qed.
+
+Lemma abs_set_tl_tvar h j tl x :
+  wf h -> Aligned h -> nth_error (tvars h) j = Some tl ->
+  abs (set_tl h tl x) = sp_tvars (abs h) (upd (s_tvars (abs h)) j x).
+Proof.
+  intros W (S & _) Ej. assert (Hlt : tl < length (tlists h)) by (eapply wf_tvar_lt; eauto).
+  set (h' := set_tl h tl x).
+  assert (E3 : tlists h' = upd (tlists h) tl x) by reflexivity.
+  unfold abs, sp_tvars. apply spec_eq_intro; auto.
+  - cbn [s_tcs]. change (tcs h') with (tcs h). apply map_ext_in. intros tc Hc.
+    apply In_nth_error in Hc as [n Hn]. f_equal. unfold tc_times.
+    apply (tl_get_set_other h h' tl x); auto. eapply tsep_tv_tc; eauto.
+  - cbn [s_trs]. change (trs h') with (trs h). apply map_ext_in. intros k Hk.
+    apply In_nth_error in Hk as [n Hn]. f_equal. unfold tr_times.
+    apply (tl_get_set_other h h' tl x); auto. eapply tsep_tv_tr; eauto.
+  - cbn [s_tvars]. change (tvars h') with (tvars h).
+    rewrite (map_change_at (tl_get h) (tl_get h') (tvars h) j tl Ej).
+    + f_equal. apply (tl_get_set_same h h' tl x); auto.
+    + intros j' tl' Hne E'. apply (tl_get_set_other h h' tl x); auto.
+      intros ->. apply Hne. eapply tsep_tv_tv; eauto.
+Qed.
+Opaque abs.
+
+Lemma Aligned_new_em_vals h vs : Aligned h -> Aligned (new_em_vals h vs).
+Proof. apply Aligned_same; reflexivity. Qed.
+Lemma Aligned_alloc h vs : Aligned h -> Aligned (alloc h vs).
+Proof. apply Aligned_same; reflexivity. Qed.
+
+Lemma refine_tcappend h t c tm cp : wf h -> Aligned h -> refines h (OTcAppend t c tm cp).
+Proof.
+  intros W A. unfold refines. simpl. unfold exec_tcappend. rewrite abs_tcs_nth, abs_ems_nth.
+  destruct (nth_error (tcs h) t) as [tc|] eqn:Et; simpl; auto.
+  destruct (nth_error (ems h) c) as [e|] eqn:Ee; simpl; auto.
+  rewrite (abs_vals_vals h (e_mem e) W (wf_em _ _ _ W Ee)).
+  rewrite (tc_times_ok h t tc W Et). cbn [fst snd].
+  rewrite abs_set_tc. cbn [tc_ems tc_tl].
+  set (h1 := new_em_vals h (abs_vals h (e_mem e))).
+  assert (W1 : wf h1) by (apply wf_new_em_vals; auto).
+  assert (A1 : Aligned h1) by (apply Aligned_new_em_vals; auto).
+  assert (Et1 : nth_error (tcs h1) t = Some tc) by exact Et.
+  set (x := tc_times h tc ++ [match tm with Some q => q | None => default_time (tc_times h tc) end]).
+  rewrite (abs_set_tl_tc h1 t tc x W1 A1 Et1).
+  unfold tc_times at 1. cbn [tc_tl].
+  rewrite (tl_get_set_same h1 (set_tl h1 (tc_tl tc) x) (tc_tl tc) x) by (auto; eapply wf_tc_tl_lt; eauto).
+  unfold h1. rewrite abs_new_em_vals by auto.
+  unfold sp_tcs, sp_new_em, sp_ems. cbn [s_hnd s_ems s_tcs s_trs s_tls s_tvars]. rewrite upd_upd.
+  rewrite s_ems_abs, map_length. reflexivity.
+Qed.
+
+Lemma refine_tcclear h t : wf h -> refines h (OTcClear t).
+Proof.
+  intros W. unfold refines. simpl. unfold exec_tcclear. rewrite abs_tcs_nth.
+  destruct (nth_error (tcs h) t); simpl; auto. rewrite abs_set_tc, abs_alloc_tl by auto.
+  unfold tc_times. cbn [tc_tl tc_ems].
+  rewrite (tl_get_alloc_new h (alloc_tl h []) []) by reflexivity. reflexivity.
 Qed.
 
 (* tracks *)
@@ -587,25 +757,60 @@ Proof.
   intros W. unfold refines. simpl. unfold exec_trnew.
   destruct (mapM (nth_error (hnd h)) is) as [ls|] eqn:E.
   - rewrite (mapM_hnd_abs h is ls W E).
-    rewrite (abs_vals_vals h ls W (locs_ok_mapM_hnd _ _ _ W E)).
-    destruct (same_dims (abs_vals h ls)); simpl; auto.
-    match goal with |- context [if ?b then _ else _] => destruct b end; simpl; auto.
-    rewrite abs_push_tr, abs_alloc by auto. cbn [tr_times tr_drops].
-    rewrite abs_vals_alloc_new. reflexivity.
+    rewrite (abs_vals_vals h ls W (locs_ok_mapM_hnd _ _ _ W E)). apply refine_build_tr; auto.
   - rewrite (mapM_hnd_abs_none h is W E). reflexivity.
 Qed.
 
-Lemma refine_trappend h k i tm : wf h -> refines h (OTrAppend k i tm).
+Lemma refine_trnewl h is j : wf h -> refines h (OTrNewL is j).
 Proof.
-  intros W. unfold refines. simpl. unfold exec_trappend. rewrite abs_trs_nth, abs_hnd_nth by auto.
+  intros W. unfold refines. simpl. unfold exec_trnewl. rewrite abs_tvars_nth.
+  destruct (mapM (nth_error (hnd h)) is) as [ls|] eqn:E.
+  - rewrite (mapM_hnd_abs h is ls W E).
+    destruct (nth_error (tvars h) j) as [tl|] eqn:Ej; simpl; auto.
+    rewrite (abs_vals_vals h ls W (locs_ok_mapM_hnd _ _ _ W E)). rewrite (tvar_times_ok h j tl W Ej).
+    apply refine_build_tr; auto.
+  - rewrite (mapM_hnd_abs_none h is W E). reflexivity.
+Qed.
+
+Lemma refine_trcopy h k : wf h -> refines h (OTrCopy k).
+Proof.
+  intros W. unfold refines. simpl. unfold exec_trcopy. rewrite abs_trs_nth.
+  destruct (nth_error (trs h) k) as [tr|] eqn:Et; simpl; auto.
+  rewrite (abs_vals_vals h (tr_drops tr) W (wf_tr _ _ _ W Et)). rewrite (tr_times_ok h k tr W Et).
+  apply refine_build_tr; auto.
+Qed.
+
+Lemma refine_trslice h k lo hi : wf h -> refines h (OTrSlice k lo hi).
+Proof.
+  intros W. unfold refines. simpl. unfold exec_trslice. rewrite abs_trs_nth.
+  destruct (nth_error (trs h) k) as [tr|] eqn:Et; simpl; auto.
+  pose proof (abs_vals_vals h (tr_drops tr) W (wf_tr _ _ _ W Et)) as Hd.
+  unfold vals_of in *. rewrite (mapM_slice _ lo hi _ _ Hd). rewrite (tr_times_ok h k tr W Et).
+  apply refine_build_tr; auto.
+Qed.
+
+Lemma refine_trappend h k i tm : wf h -> Aligned h -> refines h (OTrAppend k i tm).
+Proof.
+  intros W A. unfold refines. simpl. unfold exec_trappend. rewrite abs_trs_nth, abs_hnd_nth by auto.
   destruct (nth_error (trs h) k) as [tr|] eqn:Et; simpl; auto.
   destruct (nth_error (hnd h) i) as [l|] eqn:Ei; simpl; auto.
   destruct (val_of_ok h l W (wf_hnd_lt _ _ _ W Ei)) as [v Hv]. rewrite Hv.
   pose proof (abs_vals_vals h (tr_drops tr) W (wf_tr _ _ _ W Et)) as Hd. unfold vals_of in Hd. rewrite Hd.
+  rewrite (tr_times_ok h k tr W Et).
   match goal with |- context [if ?b then _ else _] => destruct b end; simpl; auto.
-  rewrite abs_set_tr, abs_alloc by auto. cbn [tr_times tr_drops].
+  rewrite abs_set_tr. cbn [tr_tl tr_drops].
+  set (h1 := alloc h [v]).
+  assert (W1 : wf h1) by (apply wf_alloc; auto).
+  assert (A1 : Aligned h1) by (apply Aligned_alloc; auto).
+  assert (Et1 : nth_error (trs h1) k = Some tr) by exact Et.
+  set (x := tr_times h tr ++ [match tm with Some q => q | None => default_time (tr_times h tr) end]).
+  rewrite (abs_set_tl_tr h1 k tr x W1 A1 Et1).
+  unfold tr_times at 1. cbn [tr_tl].
+  rewrite (tl_get_set_same h1 (set_tl h1 (tr_tl tr) x) (tr_tl tr) x) by (auto; eapply wf_tr_tl_lt; eauto).
+  rewrite (abs_vals_tables h1 (set_tl h1 (tr_tl tr) x)) by reflexivity.
+  unfold h1. rewrite abs_alloc by auto.
   rewrite abs_vals_app, abs_vals_alloc_old, abs_vals_alloc_new1 by (auto; eapply wf_tr; eauto).
-  reflexivity.
+  unfold sp_trs. cbn [s_hnd s_ems s_tcs s_trs s_tls s_tvars]. rewrite upd_upd. reflexivity.
 Qed.
 
 Lemma refine_trappend_bad h k : refines h (OTrAppendBad k).
@@ -614,31 +819,56 @@ Proof.
   destruct (nth_error (trs h) k); reflexivity.
 Qed.
 
-Lemma refine_trslice h k lo hi : wf h -> refines h (OTrSlice k lo hi).
-Proof.
-  intros W. unfold refines. simpl. unfold exec_trslice. rewrite abs_trs_nth.
-  destruct (nth_error (trs h) k) as [tr|] eqn:Et; simpl; auto.
-  pose proof (abs_vals_vals h (tr_drops tr) W (wf_tr _ _ _ W Et)) as Hd.
-  unfold vals_of in *. rewrite (mapM_slice _ lo hi _ _ Hd).
-  destruct (same_dims (slice lo hi (abs_vals h (tr_drops tr)))); simpl; auto.
-  match goal with |- context [if ?b then _ else _] => destruct b end; simpl; auto.
-  rewrite abs_push_tr, abs_alloc by auto. cbn [tr_times tr_drops].
-  rewrite abs_vals_alloc_new. reflexivity.
-Qed.
-
 Lemma refine_tlnew h ks : refines h (OTlNew ks).
 Proof.
   unfold refines. simpl. unfold exec_tlnew. rewrite s_trs_abs, mapM_nth_map.
   destruct (mapM (nth_error (trs h)) ks); simpl; auto.
 Qed.
 
-Lemma refine_tlremove h l q : refines h (OTlRemoveShort l q).
+Lemma mapM_times_total h trl : wf h -> Forall (fun k => tr_tl k < length (tlists h)) trl ->
+  mapM (fun tr => times_of h (tr_tl tr)) trl = Some (map (tr_times h) trl).
 Proof.
-  unfold refines. simpl. unfold exec_tlremove. rewrite s_tls_abs.
+  intros W. induction trl as [|tr trl IH]; simpl; intros H; auto.
+  inversion H; subst. destruct (times_of_ok h (tr_tl tr) H2) as [ts Hts]. rewrite Hts.
+  rewrite IH by auto. f_equal. f_equal. unfold tr_times. rewrite (tl_get_some _ _ _ Hts). reflexivity.
+Qed.
+
+Lemma refine_tlremove h l q : wf h -> refines h (OTlRemoveShort l q).
+Proof.
+  intros W. unfold refines. simpl. unfold exec_tlremove. rewrite s_tls_abs.
   destruct (nth_error (tls h) l) as [ks|]; simpl; auto.
   rewrite s_trs_abs, mapM_nth_map.
-  destruct (mapM (nth_error (trs h)) ks) as [ts|]; simpl; auto.
-  rewrite abs_with_tls, map_map. reflexivity.
+  destruct (mapM (nth_error (trs h)) ks) as [trl|] eqn:E; simpl; auto.
+  rewrite (mapM_times_total h trl W (mapM_nth_error_P _ _ _ _ (wf_tr_tl _ W) E)).
+  cbn [fst snd]. rewrite abs_with_tls, !map_map. reflexivity.
+Qed.
+
+(* the caller's lists of times *)
+Lemma refine_tlistnew h ts : wf h -> refines h (OTlistNew ts).
+Proof.
+  intros W. unfold refines. simpl. unfold exec_tlistnew. cbn [fst snd].
+  rewrite abs_with_tvars, abs_alloc_tl by auto. rewrite map_app. cbn [map].
+  rewrite (tl_get_alloc_new h (alloc_tl h ts) ts) by reflexivity.
+  rewrite s_tvars_abs. f_equal. f_equal. f_equal.
+  eapply map_ext_Forall; [apply (wf_tvars _ W)|]. intros tl Htl.
+  symmetry. apply (tl_get_alloc_old h (alloc_tl h ts) ts); auto.
+Qed.
+
+Lemma refine_tlistappend h j q : wf h -> Aligned h -> refines h (OTlistAppend j q).
+Proof.
+  intros W A. unfold refines. simpl. unfold exec_tlistappend. rewrite abs_tvars_nth.
+  destruct (nth_error (tvars h) j) as [tl|] eqn:Ej; simpl; auto.
+  rewrite (tvar_times_ok h j tl W Ej). cbn [fst snd].
+  rewrite (abs_set_tl_tvar h j tl _ W A Ej). reflexivity.
+Qed.
+
+Lemma refine_tlistset h j i q : wf h -> Aligned h -> refines h (OTlistSet j i q).
+Proof.
+  intros W A. unfold refines. simpl. unfold exec_tlistset. rewrite abs_tvars_nth.
+  destruct (nth_error (tvars h) j) as [tl|] eqn:Ej; simpl; auto.
+  rewrite (tvar_times_ok h j tl W Ej).
+  destruct (i <? length (tl_get h tl)); simpl; auto.
+  rewrite (abs_set_tl_tvar h j tl _ W A Ej). reflexivity.
 Qed.
 
 (* ------------------------------------------------------------------------------------ *)
@@ -646,10 +876,10 @@ Qed.
 (* ------------------------------------------------------------------------------------ *)
 
 Theorem abs_refines_list h o :
-  wf h -> Sep h -> list_op o = true ->
+  wf h -> Sep h -> Aligned h -> list_op o = true ->
   spec_step (abs h) o = (abs (fst (exec h o)), snd (exec h o)).
 Proof.
-  intros W S Ho. destruct_op o; simpl in Ho; try discriminate; try subst cp.
+  intros W S A Ho. destruct_op o; simpl in Ho; try discriminate; try subst cp.
   - apply refine_new; auto.
   - apply refine_seth; auto.
   - apply refine_emnew.
@@ -667,13 +897,20 @@ Proof.
   - apply refine_tcappend; auto.
   - apply refine_tcappend_bad.
   - apply refine_tcslice; auto.
-  - apply refine_tcclear.
+  - apply refine_tcclear; auto.
   - apply refine_trnew; auto.
   - apply refine_trappend; auto.
   - apply refine_trappend_bad.
   - apply refine_trslice; auto.
   - apply refine_tlnew.
-  - apply refine_tlremove.
+  - apply refine_tlremove; auto.
+  - apply refine_tccopy; auto.
+  - apply refine_tcnewl; auto.
+  - apply refine_trcopy; auto.
+  - apply refine_trnewl; auto.
+  - apply refine_tlistnew; auto.
+  - apply refine_tlistappend; auto.
+  - apply refine_tlistset; auto.
 Qed.
 
 (* over whole operation sequences, from the empty heap: same contents and same outcomes *)
@@ -684,18 +921,108 @@ Fixpoint spec_trace (s : spec) (os : list op) : list outcome :=
   end.
 
 Theorem abs_refines_list_run os : forall h,
-  wf h -> Sep h -> Forall (fun o => list_op o = true) os ->
+  wf h -> Sep h -> Aligned h -> Forall (fun o => list_op o = true) os ->
   abs (run h os) = spec_run (abs h) os /\ map snd (run_trace h os) = spec_trace (abs h) os.
 Proof.
-  induction os as [|o os IH]; intros h W S H; simpl; auto.
+  induction os as [|o os IH]; intros h W S A H; simpl; auto.
   inversion H as [|? ? Ho Hos]; subst.
-  pose proof (abs_refines_list h o W S Ho) as R.
+  pose proof (abs_refines_list h o W S A Ho) as R.
   assert (So : sep_op o = true) by (destruct o; simpl in *; auto; discriminate).
-  destruct (IH (fst (exec h o)) (wf_step h o W) (Sep_step h o W S So) Hos) as [I1 I2].
+  destruct (IH (fst (exec h o)) (wf_step h o W) (Sep_step h o W S So) (aligned_step h o W A) Hos) as [I1 I2].
   rewrite R. simpl. rewrite I1, I2. auto.
 Qed.
 
 Corollary abs_refines_list_from_empty os :
   Forall (fun o => list_op o = true) os ->
   abs (run emp os) = spec_run (abs emp) os /\ map snd (run_trace emp os) = spec_trace (abs emp) os.
-Proof. apply abs_refines_list_run; [apply wf_emp|apply Sep_emp]. Qed.
+Proof. apply abs_refines_list_run; [apply wf_emp|apply Sep_emp|apply Aligned_emp]. Qed.
+
+(* ------------------------------------------------------------------------------------ *)
+(* consequences for the times lists: edits of one collection (or of a caller's list) do not  *)
+(* reach any other collection or caller list                                             *)
+(* ------------------------------------------------------------------------------------ *)
+
+Theorem tc_append_frame h t c tm cp :
+  wf h -> Sep h -> Aligned h ->
+  let s := abs h in let s' := abs (fst (exec h (OTcAppend t c tm cp))) in
+  (forall t', t' <> t -> nth_error (s_tcs s') t' = nth_error (s_tcs s) t') /\
+  s_trs s' = s_trs s /\ s_tvars s' = s_tvars s /\ s_hnd s' = s_hnd s /\
+  (forall c', c' < length (s_ems s) -> nth_error (s_ems s') c' = nth_error (s_ems s) c').
+Proof.
+  intros W S A. cbn zeta.
+  pose proof (abs_refines_list h (OTcAppend t c tm cp) W S A eq_refl) as R.
+  apply (f_equal fst) in R. cbn [fst] in R. rewrite <- R. clear R. simpl.
+  destruct (nth_error (s_tcs (abs h)) t) as [[ts cs]|]; [|repeat split; auto].
+  destruct (nth_error (s_ems (abs h)) c) as [e|]; [|repeat split; auto].
+  cbn [fst sp_tcs sp_ems s_tcs s_trs s_tvars s_hnd s_ems]. repeat split; auto.
+  - intros t' Hne. apply nth_error_upd_neq. auto.
+  - intros c' Hc. apply nth_error_app1. exact Hc.
+Qed.
+
+Theorem tr_append_frame h k i tm :
+  wf h -> Sep h -> Aligned h ->
+  let s := abs h in let s' := abs (fst (exec h (OTrAppend k i tm))) in
+  (forall k', k' <> k -> nth_error (s_trs s') k' = nth_error (s_trs s) k') /\
+  s_tcs s' = s_tcs s /\ s_tvars s' = s_tvars s /\ s_hnd s' = s_hnd s /\ s_ems s' = s_ems s.
+Proof.
+  intros W S A. cbn zeta.
+  pose proof (abs_refines_list h (OTrAppend k i tm) W S A eq_refl) as R.
+  apply (f_equal fst) in R. cbn [fst] in R. rewrite <- R. clear R. simpl.
+  destruct (nth_error (s_trs (abs h)) k) as [[ts dvs]|]; [|repeat split; auto].
+  destruct (nth_error (s_hnd (abs h)) i) as [v|]; [|repeat split; auto].
+  match goal with |- context [if ?b then _ else _] => destruct b end; [|repeat split; auto].
+  cbn [fst sp_trs s_tcs s_trs s_tvars s_hnd s_ems]. repeat split; auto.
+  intros k' Hne. apply nth_error_upd_neq. auto.
+Qed.
+
+(* mutating a list of times that the caller owns changes no collection *)
+Theorem tlist_mutation_frame h o :
+  wf h -> Sep h -> Aligned h ->
+  (exists j q, o = OTlistAppend j q) \/ (exists j i q, o = OTlistSet j i q) ->
+  let s := abs h in let s' := abs (fst (exec h o)) in
+  s_tcs s' = s_tcs s /\ s_trs s' = s_trs s /\ s_ems s' = s_ems s /\ s_hnd s' = s_hnd s.
+Proof.
+  intros W S A Ho. cbn zeta.
+  assert (L : list_op o = true) by (destruct Ho as [(j & q & ->)|(j & i & q & ->)]; reflexivity).
+  pose proof (abs_refines_list h o W S A L) as R.
+  apply (f_equal fst) in R. cbn [fst] in R. rewrite <- R. clear R.
+  destruct Ho as [(j & q & ->)|(j & i & q & ->)]; simpl.
+  - destruct (nth_error (s_tvars (abs h)) j); repeat split; auto.
+  - destruct (nth_error (s_tvars (abs h)) j) as [ts|]; [|repeat split; auto].
+    destruct (i <? length ts); repeat split; auto.
+Qed.
+
+(* a copy-constructed time course / track is independent of its source: the copy is number
+   [length (tcs h)]; appending to the copy leaves the source's times and members unchanged, and
+   vice versa *)
+Theorem tc_copy_independent h t c tm cp :
+  wf h -> Sep h -> Aligned h -> t < length (tcs h) ->
+  let h1 := fst (exec h (OTcCopy t)) in
+  let t' := length (tcs h) in
+  nth_error (s_tcs (abs (fst (exec h1 (OTcAppend t' c tm cp))))) t = nth_error (s_tcs (abs h1)) t /\
+  nth_error (s_tcs (abs (fst (exec h1 (OTcAppend t c tm cp))))) t' = nth_error (s_tcs (abs h1)) t'.
+Proof.
+  intros W S A Ht h1 t'.
+  assert (W1 : wf h1) by (apply wf_step; auto).
+  assert (S1 : Sep h1) by (apply Sep_step; auto).
+  assert (A1 : Aligned h1) by (apply aligned_step; auto).
+  split.
+  - apply (tc_append_frame h1 t' c tm cp W1 S1 A1). unfold t'. lia.
+  - apply (tc_append_frame h1 t c tm cp W1 S1 A1). unfold t'. lia.
+Qed.
+
+Theorem tr_copy_independent h k i tm :
+  wf h -> Sep h -> Aligned h -> k < length (trs h) ->
+  let h1 := fst (exec h (OTrCopy k)) in
+  let k' := length (trs h) in
+  nth_error (s_trs (abs (fst (exec h1 (OTrAppend k' i tm))))) k = nth_error (s_trs (abs h1)) k /\
+  nth_error (s_trs (abs (fst (exec h1 (OTrAppend k i tm))))) k' = nth_error (s_trs (abs h1)) k'.
+Proof.
+  intros W S A Hk h1 k'.
+  assert (W1 : wf h1) by (apply wf_step; auto).
+  assert (S1 : Sep h1) by (apply Sep_step; auto).
+  assert (A1 : Aligned h1) by (apply aligned_step; auto).
+  split.
+  - apply (tr_append_frame h1 k' i tm W1 S1 A1). unfold k'. lia.
+  - apply (tr_append_frame h1 k i tm W1 S1 A1). unfold k'. lia.
+Qed.
